@@ -121,6 +121,8 @@ pub struct FragmentedMuxer {
     base_media_decode_time: u64,
     init_segment: Option<Vec<u8>>,
     last_dts: Option<u64>,
+    /// ISO 639-2/T language for the track's media header (None = "und").
+    language: Option<String>,
 }
 
 impl FragmentedMuxer {
@@ -133,7 +135,14 @@ impl FragmentedMuxer {
             base_media_decode_time: 0,
             init_segment: None,
             last_dts: None,
+            language: None,
         }
+    }
+
+    /// Language configured on the builder; written to the init segment's media header.
+    pub(crate) fn set_language(&mut self, language: Option<String>) {
+        self.language = language;
+        self.init_segment = None;
     }
 
     /// Get the initialization segment (ftyp + moov).
@@ -150,7 +159,7 @@ impl FragmentedMuxer {
         buf.extend_from_slice(&ftyp);
 
         // moov box (no sample tables for fMP4)
-        let moov = build_moov_fmp4(&self.config);
+        let moov = build_moov_fmp4(&self.config, self.language.as_deref());
         buf.extend_from_slice(&moov);
 
         self.init_segment = Some(buf.clone());
@@ -283,7 +292,7 @@ fn build_ftyp_fmp4() -> Vec<u8> {
     build_box(b"ftyp", &payload)
 }
 
-fn build_moov_fmp4(config: &FragmentConfig) -> Vec<u8> {
+fn build_moov_fmp4(config: &FragmentConfig, language: Option<&str>) -> Vec<u8> {
     let mut payload = Vec::new();
 
     // mvhd (movie header)
@@ -295,7 +304,7 @@ fn build_moov_fmp4(config: &FragmentConfig) -> Vec<u8> {
     payload.extend_from_slice(&mvex);
 
     // trak (video track)
-    let trak = build_trak_fmp4(config);
+    let trak = build_trak_fmp4(config, language);
     payload.extend_from_slice(&trak);
 
     build_box(b"moov", &payload)
@@ -336,7 +345,7 @@ fn build_mvex() -> Vec<u8> {
     build_box(b"mvex", &trex)
 }
 
-fn build_trak_fmp4(config: &FragmentConfig) -> Vec<u8> {
+fn build_trak_fmp4(config: &FragmentConfig, language: Option<&str>) -> Vec<u8> {
     let mut payload = Vec::new();
 
     // tkhd (track header)
@@ -344,7 +353,7 @@ fn build_trak_fmp4(config: &FragmentConfig) -> Vec<u8> {
     payload.extend_from_slice(&tkhd);
 
     // mdia (media)
-    let mdia = build_mdia_fmp4(config);
+    let mdia = build_mdia_fmp4(config, language);
     payload.extend_from_slice(&mdia);
 
     build_box(b"trak", &payload)
@@ -379,11 +388,11 @@ fn build_tkhd_fmp4(config: &FragmentConfig) -> Vec<u8> {
     build_box(b"tkhd", &payload)
 }
 
-fn build_mdia_fmp4(config: &FragmentConfig) -> Vec<u8> {
+fn build_mdia_fmp4(config: &FragmentConfig, language: Option<&str>) -> Vec<u8> {
     let mut payload = Vec::new();
 
     // mdhd (media header)
-    let mdhd = build_mdhd_fmp4(config.timescale, None);
+    let mdhd = build_mdhd_fmp4(config.timescale, language);
     payload.extend_from_slice(&mdhd);
 
     // hdlr (handler)
